@@ -1562,3 +1562,292 @@ func E4LogDomain(c *core.Ctx, r *core.Report) {
 	r.Count("E4.log-of-quotient-sites", n)
 	r.Floor("E4.log-of-quotient-sites", 1)
 }
+
+// E4StepProgress: a curve-walking loop whose step is proportional to a tolerance parameter makes progress.
+func E4StepProgress(c *core.Ctx, r *core.Report) {
+	r.Rule("E4.step-progress", "package canvas: a loop `for t < 1.0` that advances t by a step computed from a float parameter of the function (the flattening tolerance, under a square or cube root) does not terminate when that parameter is zero. The parameter therefore has a positive lower bound when the loop is reached: the function assigns `param = math.Max(param, K)` before the loop, or every call site in the package passes a variable that the caller clamped that way (followed two levels up). The cubic flattener had the clamp, the quadratic one did not: Flatten(0) hung on any path with a QuadTo")
+	p := c.MustPkg("")
+	info := p.TypesInfo
+	decls := map[types.Object]*ast.FuncDecl{}
+	for _, fd := range core.AllFuncDecls(p) {
+		if o := info.Defs[fd.Name]; o != nil {
+			decls[o] = fd
+		}
+	}
+	// clamped(fd, obj): obj = math.Max(obj, K) assigned at top level of fd
+	clampedIn := func(fd *ast.FuncDecl, o types.Object, before token.Pos) bool {
+		found := false
+		ast.Inspect(fd.Body, func(m ast.Node) bool {
+			as, ok := m.(*ast.AssignStmt)
+			if !ok || len(as.Lhs) != 1 || len(as.Rhs) != 1 || as.Pos() > before {
+				return true
+			}
+			id, ok := as.Lhs[0].(*ast.Ident)
+			if !ok || core.ObjOf(info, id) != o {
+				return true
+			}
+			if call, ok := core.Unparen(as.Rhs[0]).(*ast.CallExpr); ok && core.IsPkgFunc(info, call, "math", "Max") && len(call.Args) == 2 {
+				for i, a := range call.Args {
+					if aid, ok := core.Unparen(a).(*ast.Ident); ok && core.ObjOf(info, aid) == o {
+						other := core.Unparen(call.Args[1-i])
+						if f, ok := constantFloat(core.ConstVal(info, other)); ok && f > 0 {
+							found = true
+						} else if oid, ok := other.(*ast.Ident); ok {
+							// a package-level tuning variable such as Epsilon
+							if v, ok := core.ObjOf(info, oid).(*types.Var); ok && v.Parent() == p.Types.Scope() {
+								found = true
+							}
+						}
+					}
+				}
+			}
+			return true
+		})
+		return found
+	}
+	paramIndex := func(fd *ast.FuncDecl, o types.Object) int {
+		k := 0
+		for _, f := range fd.Type.Params.List {
+			for _, nm := range f.Names {
+				if info.Defs[nm] == o {
+					return k
+				}
+				k++
+			}
+		}
+		return -1
+	}
+	var established func(fd *ast.FuncDecl, o types.Object, before token.Pos, depth int) (bool, string)
+	established = func(fd *ast.FuncDecl, o types.Object, before token.Pos, depth int) (bool, string) {
+		if clampedIn(fd, o, before) {
+			return true, ""
+		}
+		idx := paramIndex(fd, o)
+		if idx < 0 || depth == 0 {
+			return false, "canvas." + core.FuncName(fd)
+		}
+		fobj := info.Defs[fd.Name]
+		ncalls := 0
+		why := ""
+		for cobj, cfd := range decls {
+			_ = cobj
+			if cfd.Body == nil {
+				continue
+			}
+			ast.Inspect(cfd.Body, func(m ast.Node) bool {
+				call, ok := m.(*ast.CallExpr)
+				if !ok {
+					return true
+				}
+				if f := core.CalleeOf(info, call); f == nil || types.Object(f) != fobj || len(call.Args) <= idx {
+					return true
+				}
+				ncalls++
+				aid, ok := core.Unparen(call.Args[idx]).(*ast.Ident)
+				if !ok {
+					if f, isConst := constantFloat(core.ConstVal(info, call.Args[idx])); isConst && f > 0 {
+						return true
+					}
+					why = "canvas." + core.FuncName(cfd) + " passes `" + c.Src(call.Args[idx]) + "`"
+					return true
+				}
+				if ok2, w := established(cfd, core.ObjOf(info, aid), call.Pos(), depth-1); !ok2 {
+					why = w + " (reached through canvas." + core.FuncName(cfd) + ")"
+				}
+				return true
+			})
+		}
+		if ncalls == 0 {
+			return false, "canvas." + core.FuncName(fd) + " has no caller that clamps it"
+		}
+		return why == "", why
+	}
+	n := 0
+	for _, fd := range core.AllFuncDecls(p) {
+		if fd.Body == nil || strings.HasSuffix(c.Fset.Position(fd.Pos()).Filename, "_test.go") {
+			continue
+		}
+		fname := "canvas." + core.FuncName(fd)
+		ord := 0
+		ast.Inspect(fd.Body, func(m ast.Node) bool {
+			loop, ok := m.(*ast.ForStmt)
+			if !ok || loop.Cond == nil || loop.Init != nil || loop.Post != nil {
+				return true
+			}
+			be, ok := core.Unparen(loop.Cond).(*ast.BinaryExpr)
+			if !ok || be.Op != token.LSS {
+				return true
+			}
+			tid, ok := core.Unparen(be.X).(*ast.Ident)
+			if !ok {
+				return true
+			}
+			if f, ok := constantFloat(core.ConstVal(info, be.Y)); !ok || f != 1 {
+				return true
+			}
+			tobj := core.ObjOf(info, tid)
+			// parameters the step depends on: float params mentioned in an assignment to t (or to a
+			// local that flows into t) under Sqrt/Cbrt
+			deps := map[types.Object]bool{}
+			ast.Inspect(loop.Body, func(k ast.Node) bool {
+				call, ok := k.(*ast.CallExpr)
+				if !ok || !(core.IsPkgFunc(info, call, "math", "Sqrt") || core.IsPkgFunc(info, call, "math", "Cbrt")) {
+					return true
+				}
+				ast.Inspect(call, func(q ast.Node) bool {
+					if id, ok := q.(*ast.Ident); ok {
+						if o := core.ObjOf(info, id); o != nil && paramIndex(fd, o) >= 0 {
+							if b, ok := o.Type().Underlying().(*types.Basic); ok && b.Kind() == types.Float64 {
+								deps[o] = true
+							}
+						}
+					}
+					return true
+				})
+				return true
+			})
+			assignsT := false
+			ast.Inspect(loop.Body, func(k ast.Node) bool {
+				if as, ok := k.(*ast.AssignStmt); ok {
+					for _, l := range as.Lhs {
+						if id, ok := l.(*ast.Ident); ok && core.ObjOf(info, id) == tobj {
+							assignsT = true
+						}
+					}
+				}
+				return true
+			})
+			if !assignsT || len(deps) == 0 {
+				return true
+			}
+			for o := range deps {
+				n++
+				ord++
+				key := fmt.Sprintf("%s|step loop #%d: parameter %d has a positive lower bound", fname, ord, paramIndex(fd, o))
+				if ok, why := established(fd, o, loop.Pos(), 2); ok {
+					r.OK("E4.step-progress", key, c.Pos(loop.Pos()), "")
+				} else {
+					r.Fail("E4.step-progress", key, c.Pos(loop.Pos()), fmt.Sprintf("the step of this loop is computed from the parameter `%s`, which is not clamped to a positive value before the loop: %s; with a zero value the loop never advances", o.Name(), why))
+				}
+			}
+			return true
+		})
+	}
+	r.Count("E4.step-loops", n)
+	r.Floor("E4.step-loops", 2)
+}
+
+// E4AlphaDivision: un-premultiplying a colour tests its alpha first.
+func E4AlphaDivision(c *core.Ctx, r *core.Report) {
+	r.Rule("E4.alpha-division", "package canvas and the PDF, PostScript and SVG writers: colours are stored premultiplied, and every writer that needs plain components divides by the alpha. A division whose divisor is a colour's alpha — a local defined from a field `A` of a colour (`float64(c.A)/255.0`) or the fourth result of `RGBA()` — is preceded in its function by a test of that alpha against zero (`c.A == 0`, `a == 0`, `a != 0`, `0 < a`). CSSColor and the PostScript writer have the test; the PDF writer had not, and a fully transparent gradient stop or text colour put `NaN` tokens into the file")
+	n := 0
+	for _, rel := range []string{"", "renderers/pdf", "renderers/ps", "renderers/svg"} {
+		p := c.MustPkg(rel)
+		info := p.TypesInfo
+		for _, fd := range core.AllFuncDecls(p) {
+			if fd.Body == nil || strings.HasSuffix(c.Fset.Position(fd.Pos()).Filename, "_test.go") {
+				continue
+			}
+			fname := p.Types.Name() + "." + core.FuncName(fd)
+			// alpha locals: defined from an expression that selects field A, or 4th result of a call to RGBA
+			alpha := map[types.Object]string{} // object -> source colour expression (for the zero test)
+			ast.Inspect(fd.Body, func(m ast.Node) bool {
+				as, ok := m.(*ast.AssignStmt)
+				if !ok {
+					return true
+				}
+				if len(as.Lhs) == 4 && len(as.Rhs) == 1 {
+					if call, ok := as.Rhs[0].(*ast.CallExpr); ok {
+						if se, ok := call.Fun.(*ast.SelectorExpr); ok && se.Sel.Name == "RGBA" {
+							if id, ok := as.Lhs[3].(*ast.Ident); ok && id.Name != "_" {
+								alpha[core.ObjOf(info, id)] = ""
+							}
+						}
+					}
+					return true
+				}
+				if len(as.Lhs) != len(as.Rhs) {
+					return true
+				}
+				for i, l := range as.Lhs {
+					id, ok := l.(*ast.Ident)
+					if !ok {
+						continue
+					}
+					ast.Inspect(as.Rhs[i], func(k ast.Node) bool {
+						if se, ok := k.(*ast.SelectorExpr); ok && se.Sel.Name == "A" {
+							if t := info.TypeOf(se.X); t != nil && (strings.HasSuffix(t.String(), "color.RGBA") || strings.HasSuffix(t.String(), "color.NRGBA")) {
+								alpha[core.ObjOf(info, id)] = types.ExprString(se)
+							}
+						}
+						return true
+					})
+				}
+				return true
+			})
+			if len(alpha) == 0 {
+				continue
+			}
+			done := map[types.Object]bool{}
+			ast.Inspect(fd.Body, func(m ast.Node) bool {
+				be, ok := m.(*ast.BinaryExpr)
+				if !ok || be.Op != token.QUO {
+					return true
+				}
+				id, ok := core.Unparen(be.Y).(*ast.Ident)
+				if !ok {
+					return true
+				}
+				o := core.ObjOf(info, id)
+				src, isAlpha := alpha[o]
+				if !isAlpha || done[o] {
+					return true
+				}
+				done[o] = true
+				n++
+				key := fmt.Sprintf("%s|division by the alpha `%s` is preceded by a zero test", fname, id.Name)
+				tested := false
+				ast.Inspect(fd.Body, func(k ast.Node) bool {
+					is, ok := k.(*ast.IfStmt)
+					if !ok || is.Pos() > be.Pos() {
+						return true
+					}
+					ast.Inspect(is.Cond, func(q ast.Node) bool {
+						cmp, ok := q.(*ast.BinaryExpr)
+						if !ok {
+							return true
+						}
+						switch cmp.Op {
+						case token.EQL, token.NEQ, token.LSS, token.GTR, token.LEQ, token.GEQ:
+						default:
+							return true
+						}
+						for i, s := range []ast.Expr{cmp.X, cmp.Y} {
+							other := []ast.Expr{cmp.Y, cmp.X}[i]
+							if f, ok := constantFloat(core.ConstVal(info, other)); !ok || f != 0 {
+								continue
+							}
+							s = core.Unparen(s)
+							if sid, ok := s.(*ast.Ident); ok && core.ObjOf(info, sid) == o {
+								tested = true
+							}
+							if src != "" && types.ExprString(s) == src {
+								tested = true
+							}
+						}
+						return true
+					})
+					return true
+				})
+				if tested {
+					r.OK("E4.alpha-division", key, c.Pos(be.Pos()), "")
+				} else {
+					r.Fail("E4.alpha-division", key, c.Pos(be.Pos()), fmt.Sprintf("`%s` divides by the colour's alpha without a preceding test against zero: a fully transparent colour gives 0/0 = NaN (or an integer division by zero)", c.Src(be)))
+				}
+				return true
+			})
+		}
+	}
+	r.Count("E4.alpha-divisions", n)
+	r.Floor("E4.alpha-divisions", 3)
+}
